@@ -29,8 +29,8 @@ def enum_text(rng, vals):
             lines.append("  " + rng.choice(["// " + sc, "/* " + sc + " */"]))
             comments.append(("comment", sc))
         if style in ("multi-comments", "multi-standalone") and rng.random() < 0.6:
-            c = rng.choice(["first", "a value", "x y"])
-            cm = rng.choice([" // " + c, " /* " + c + " */"])
+            c = rng.choice(["first", "a value", "x y", "", ""])
+            cm = rng.choice([" // " + c, " /* " + c + " */"]) if c else rng.choice([" //", " // ", " /**/", " /* */"])
         lines.append("  " + v + ("," if i < len(vals) - 1 else "") + cm)
         comments.append(c)
     if style == "multi-standalone" and rng.random() < 0.3:
@@ -85,7 +85,7 @@ def run(ctx):
                          "inline {regex: P} accepts (both equal a python search on a common regex subset); the Coq model of the /P/ token extraction is run on the same texts; "
                          "non-trivial = list with >= 3 values / pattern with an escape")
     # ---------- enum ----------
-    n = 400 if quick else 8000
+    n = 1500 if quick else 8000
     ecases = []
     for _ in range(n):
         vals = rng.sample(VALUES, rng.randint(1, 6))
@@ -103,6 +103,15 @@ def run(ctx):
                 ctx.report("enum rule %r: Check %s, Len %s (text is %d bytes)" % (text[:80], r[0], r[1], len(text.encode())), "c18e:" + text, {"enum": text, "result": r}, case=text)
         elif r[2] != wantV and len(ctx.violations) < 40:
             ctx.report("enum rule %r: Values %s, the source lists %s" % (text[:80], r[2][:150], wantV[:150]), "c18v:" + text, {"enum": text, "values": r[2], "expected": wantV}, case=text)
+    import os
+    cf = os.path.join(vc.ROOT, "corpus", "C18", "fixed.json")
+    if os.path.exists(cf):
+        corpus = json.load(open(cf))
+        for c, o in zip(corpus, vc.impl(["enumrule"], [json.dumps({"text": c["text"]}) for c in corpus])):
+            r = json.loads(o)
+            ctx.evaluations += 1
+            if (r[0] != "ok" or r[2] != c["values"]) and len(ctx.violations) < 40:
+                ctx.report("corpus case: enum rule %r: Check %s, Values %s, expected %s" % (c["text"], r[0], r[2] if len(r) > 2 else "-", c["values"]), "c18corpus:" + c["text"], dict(c, result=r), case=c["text"])
     # duplicates are rejected
     dups = []
     for _ in range(20 if quick else 500):
@@ -115,7 +124,7 @@ def run(ctx):
             ctx.report("enum rule with a duplicated value is accepted: %r" % t[:100], "c18d:" + t, {"enum": t}, case=t)
     # named vs inline
     lines, meta = [], []
-    for vals, text, _ in ecases[: (300 if quick else 5000)]:
+    for vals, text, _ in ecases[: (1000 if quick else 5000)]:
         ex = vals[0]
         probes = VALUES + ['"zz"', "7"]
         for form in ("named", "inline"):
@@ -141,7 +150,7 @@ def run(ctx):
     # one rule object / one regex type object used by several schemas one after the other: every schema behaves as with a fresh object,
     # and the rule's Values / GetAST stay what they were
     slines, smeta = [], []
-    for vals, text, comments in ecases[: (150 if quick else 3000)]:
+    for vals, text, comments in ecases[: (500 if quick else 3000)]:
         k = rng.choice([2, 2, 3])
         exs = [rng.choice(vals) for _ in range(k)]
         schemas = [rng.choice(["%s // {enum: @E}", "{\"k\": %s // {enum: @E}\n}", "[%s // {enum: @E}\n]"]) % e for e in exs]
@@ -150,7 +159,7 @@ def run(ctx):
         for sc in schemas:
             slines.append(json.dumps({"enum": text, "schemas": [sc], "probes": probes}))
         smeta.append((text, schemas, "|".join(expected_values(vals, comments))))
-    for _ in range(60 if quick else 1500):
+    for _ in range(250 if quick else 1500):
         p = rand_pattern(rng)
         try:
             re.compile(p)
@@ -185,8 +194,10 @@ def run(ctx):
         if what and len(ctx.violations) < 40:
             ctx.report("shared %s %r: %s" % ("enum rule" if wantvals is not None else "regex type", text[:60], what), "c18s:" + text + "|".join(schemas), {"object": text, "schemas": schemas, "result": sh}, case=text)
     ctx.extra["shared_object_cases"] = len(smeta)
+    import enum_cases
+    enum_cases.stream(ctx, st, "c", quick, "c18")
     # ---------- regex ----------
-    pats = [rand_pattern(rng) for _ in range(300 if quick else 6000)] + ["a\\\\", "^C:\\\\", "a\\/b", "[a-c]+\\\\"]
+    pats = [rand_pattern(rng) for _ in range(1200 if quick else 6000)] + ["a\\\\", "^C:\\\\", "a\\/b", "[a-c]+\\\\"]
     rlines = [json.dumps({"text": "/%s/%s" % (p, rng.choice(["", " trailing text", "\nNEXT /x/"]))}) for p in pats]
     routs = vc.impl_parallel(["regextype"], rlines)
     mlines = [json.loads(l)["text"].encode().hex() for l in rlines]
